@@ -77,8 +77,11 @@ def payloads(rng, tier):
             i = rng.randrange(max(0, len(w) - k), len(w))
             s = w[:i] + rng.choice(NUC) + w[i + 1:]
         vk = rng.choice(["none", "none", "right", "wrong"])
+        # the number of candidate combinations the code enumerates is bounded by the heap limit only; keep it small unless
+        # the strand has few errors (the run time of that enumeration is not what C10 is about)
+        few = kind in ("walk", "first", "lastwin", "len_k")
         yield "repair", {"k": k, "rows": rows, "v0": v0, "s": s, "vt": vk, "indel": rng.random() < 0.6,
-                         "heap": rng.choice([0.5, 1, 10, 1e3, 1e3, 1e9]), "kind": kind}
+                         "heap": rng.choice([0.5, 1, 10, 1e3, 1e3, 1e9] if few else [0.5, 1, 10, 1e3, 1e3, 5e3]), "kind": kind}
 
 
 def build(stream, p):
@@ -92,12 +95,12 @@ def build(stream, p):
         vt = good[:-1] + NUC[(NUC.index(good[-1]) + 1) % 4]
     n = len(s)
     # proved bound on graph look-ups (C10_total), each look-up costs at most 3 row reads in the implementation
-    budget = 6 * n * (1 + 16 * k * k) + 64
+    budget = rc.read_budget(n, k)
     call, impl = rc.repair_case_parts(rows, v0, k, s, vt, p["indel"], p["heap"], budget)
 
     def oracle(ans, raw):
         if isinstance(raw, Budget):
-            return "repair did not return within %d accessor row reads" % budget
+            return "repair did not return: %s (row-read budget %d, time budget 60 s)" % (raw, budget)
         if isinstance(raw, BaseException):
             return "raised %r" % (raw,)
         if not rc.well_typed(raw):
